@@ -124,7 +124,7 @@ func (r *runner) beginBurst(ops []Op) {
 		}
 		r.burstLoad += 3 * n
 		switch o.Op {
-		case "leave", "drop", "stall", "resume":
+		case "leave", "drop", "stall", "resume", "unsubscribe", "unregister":
 			r.unstable[o.S] = true
 		case "kill":
 			r.unstable[o.Target] = true
@@ -177,14 +177,21 @@ func (r *runner) live(idx int) *sess {
 // request queues a request message of session s and registers the reply
 // expectation.
 func (r *runner) request(s *sess, ot *opTrace, gate chan struct{}, desc string, reply bool, mk func(req wamp.ID) wamp.Message) (*outItem, *expect) {
+	return r.requestPre(s, ot, gate, desc, reply, mk, nil)
+}
+
+// requestPre: pre runs (with r.mu held) after the expectation exists and
+// before the message can reach the router, so that whatever the router sends
+// back finds the bookkeeping in place.
+func (r *runner) requestPre(s *sess, ot *opTrace, gate chan struct{}, desc string, reply bool, mk func(req wamp.ID) wamp.Message, pre func(it *outItem, e *expect)) (*outItem, *expect) {
 	r.mu.Lock()
 	req := s.nextReq
 	s.nextReq++
 	r.mu.Unlock()
 	it := &outItem{msg: mk(req), desc: desc, gate: gate, opTr: ot}
 	var e *expect
+	r.mu.Lock()
 	if reply {
-		r.mu.Lock()
 		e = &expect{s: s, kind: "reply", desc: fmt.Sprintf("reply to %s (req %d)", desc, req), item: it,
 			strict: r.strictFor(s), epoch: s.epoch}
 		if s.stalled {
@@ -192,8 +199,11 @@ func (r *runner) request(s *sess, ot *opTrace, gate chan struct{}, desc string, 
 		}
 		s.exps[req] = e
 		r.exps = append(r.exps, e)
-		r.mu.Unlock()
 	}
+	if pre != nil {
+		pre(it, e)
+	}
+	r.mu.Unlock()
 	s.push(it)
 	return it, e
 }
@@ -225,13 +235,12 @@ func (r *runner) execOp(i int, op *Op, gate chan struct{}) {
 	}
 	switch op.Op {
 	case "subscribe":
-		_, e := r.request(s, ot, gate, "SUBSCRIBE "+op.Topic, true, func(req wamp.ID) wamp.Message {
-			return &wamp.Subscribe{Request: req, Options: wamp.Dict{}, Topic: wamp.URI(op.Topic)}
-		})
-		e.topic = op.Topic
 		if strings.HasPrefix(op.Topic, "wamp.") {
 			s.metaSub = true
 		}
+		r.requestPre(s, ot, gate, "SUBSCRIBE "+op.Topic, true, func(req wamp.ID) wamp.Message {
+			return &wamp.Subscribe{Request: req, Options: wamp.Dict{}, Topic: wamp.URI(op.Topic)}
+		}, func(_ *outItem, e *expect) { e.topic = op.Topic })
 	case "unsubscribe":
 		r.mu.Lock()
 		id, ok := r.subMap(s.spec.Realm, op.Topic)[s.idx]
@@ -247,10 +256,17 @@ func (r *runner) execOp(i int, op *Op, gate chan struct{}) {
 	case "publish":
 		r.publish(s, ot, gate, op)
 	case "register":
-		_, e := r.request(s, ot, gate, "REGISTER "+op.Proc, true, func(req wamp.ID) wamp.Message {
+		if s.stalled {
+			// its REGISTERED will not be read: remember the callee anyway
+			r.mu.Lock()
+			if _, ok := r.regMap(s.spec.Realm)[op.Proc]; !ok {
+				r.regMap(s.spec.Realm)[op.Proc] = s
+			}
+			r.mu.Unlock()
+		}
+		r.requestPre(s, ot, gate, "REGISTER "+op.Proc, true, func(req wamp.ID) wamp.Message {
 			return &wamp.Register{Request: req, Options: wamp.Dict{}, Procedure: wamp.URI(op.Proc)}
-		})
-		e.proc = op.Proc
+		}, func(_ *outItem, e *expect) { e.proc = op.Proc })
 	case "unregister":
 		r.mu.Lock()
 		id, ok := r.regIDs[s.idx][op.Proc]
@@ -480,24 +496,23 @@ func (r *runner) publish(s *sess, ot *opTrace, gate chan struct{}, op *Op) {
 		if op.HoldUntil != "" {
 			r.armHold(s, op.HoldUntil, tok, 0)
 		}
-		it, _ := r.request(s, ot, gate, "PUBLISH "+op.Topic, op.Ack, func(req wamp.ID) wamp.Message {
+		r.requestPre(s, ot, gate, "PUBLISH "+op.Topic, op.Ack, func(req wamp.ID) wamp.Message {
 			if op.HoldUntil == "close" {
 				r.armHold(s, "authz", "", req)
 			}
 			return &wamp.Publish{Request: req, Options: wamp.Dict{"acknowledge": op.Ack}, Topic: wamp.URI(op.Topic),
 				Arguments: wamp.List{tok}}
-		})
-		r.mu.Lock()
-		r.events[tok] = map[int]*expect{}
-		for _, x := range subs {
-			e := &expect{s: x, kind: "event", desc: "EVENT " + tok, item: it, strict: r.strictFor(x), epoch: x.epoch}
-			if x.stalled {
-				e.void = "session stalled"
+		}, func(it *outItem, _ *expect) {
+			r.events[tok] = map[int]*expect{}
+			for _, x := range subs {
+				e := &expect{s: x, kind: "event", desc: "EVENT " + tok, item: it, strict: r.strictFor(x), epoch: x.epoch}
+				if x.stalled {
+					e.void = "session stalled"
+				}
+				r.events[tok][x.idx] = e
+				r.exps = append(r.exps, e)
 			}
-			r.events[tok][x.idx] = e
-			r.exps = append(r.exps, e)
-		}
-		r.mu.Unlock()
+		})
 	}
 }
 
@@ -554,7 +569,7 @@ func (r *runner) call(s *sess, ot *opTrace, gate chan struct{}, proc string, op 
 			r.mu.Unlock()
 		}
 	}
-	it, e := r.request(s, ot, gate, "CALL "+proc, true, func(req wamp.ID) wamp.Message {
+	r.requestPre(s, ot, gate, "CALL "+proc, true, func(req wamp.ID) wamp.Message {
 		c.req = req
 		c.token = fmt.Sprintf("c%d.%d", s.idx, req)
 		if op != nil {
@@ -564,19 +579,18 @@ func (r *runner) call(s *sess, ot *opTrace, gate chan struct{}, proc string, op 
 			args = wamp.List{c.token}
 		}
 		return &wamp.Call{Request: req, Options: opts, Procedure: wamp.URI(proc), Arguments: args}
-	})
-	r.mu.Lock()
-	c.item, c.exp = it, e
-	e.call = c
-	if !c.meta {
-		c.modelCall = r.regMap(s.spec.Realm)[proc]
-		if c.modelCall != nil {
-			c.modelEp = c.modelCall.epoch
+	}, func(it *outItem, e *expect) {
+		c.item, c.exp = it, e
+		e.call = c
+		if !c.meta {
+			c.modelCall = r.regMap(s.spec.Realm)[proc]
+			if c.modelCall != nil {
+				c.modelEp = c.modelCall.epoch
+			}
 		}
-	}
-	r.calls[c.token] = c
-	s.calls = append(s.calls, c)
-	r.mu.Unlock()
+		r.calls[c.token] = c
+		s.calls = append(s.calls, c)
+	})
 }
 
 // probe: every live, draining session makes a round trip through the dealer
